@@ -19,6 +19,11 @@
 //	                                  ws wt wv (wrong source / target / validator index), wc (one commitment
 //	                                  too many), fv (last validator missing)
 //	                                  -> q <messages queued so far> | dup | err <unknown|source|target|val|commit>
+//	                                  ws<k> wt<k> wv<k>: only the entry at position k (>= 1) is altered
+//	race <j> <c1|c2> <from>           two overlapping deliveries of <from>'s identical genuine cast: the first is
+//	                                  held inside the callback's hand-over (the receiving channel is kept full),
+//	                                  the second is started, then the channel is released
+//	                                  -> the two results in a sequential order, e.g. "q 3 | dup"
 //	fin                               wait for all nodes -> per node j:c1=[sources]#keys,p=[..]#keys,c2=[..]#keys
 //	val / rec / sig                   as in drive-frost, on the ceremony's result
 package main
@@ -409,7 +414,30 @@ func (c *ceremony) alter(kind, variant string, m proto.Message, src, j int) prot
 			}
 		}
 	default:
-		panic("bad variant " + variant)
+		// ws<k> / wt<k> / wv<k>: exactly the entry at position k is altered
+		if len(variant) < 3 {
+			panic("bad variant " + variant)
+		}
+		k, err := strconv.Atoi(variant[2:])
+		if err != nil {
+			panic("bad variant " + variant)
+		}
+		if k < len(ks) {
+			switch variant[:2] {
+			case "ws":
+				ks[k].SourceId = uint32(src%c.n + 1)
+			case "wt":
+				if kind == "p" {
+					ks[k].TargetId = uint32(j%c.n + 1)
+				} else {
+					ks[k].TargetId = uint32(j)
+				}
+			case "wv":
+				ks[k].ValIdx = uint32(c.nv)
+			default:
+				panic("bad variant " + variant)
+			}
+		}
 	}
 	return m
 }
@@ -473,8 +501,7 @@ func (c *ceremony) complete(j int, kinds ...string) bool {
 
 // deliver performs op `d j kind from variant`.
 func (c *ceremony) deliver(run *hx.Run, j int, kind string, from int, variant string) string {
-	nd := c.nd[j]
-	if nd == nil {
+	if c.nd[j] == nil {
 		panic("no such node")
 	}
 	member := from >= 1 && from <= c.n
@@ -482,6 +509,15 @@ func (c *ceremony) deliver(run *hx.Run, j int, kind string, from int, variant st
 	if !member {
 		src = j%c.n + 1
 	}
+	genuine, okG := c.genuineMsg(run, j, kind, src)
+	if !okG {
+		return "unavailable"
+	}
+	return c.deliverMsg(run, j, kind, from, variant, src, member, genuine)
+}
+
+// genuineMsg returns the genuine message of member src (for node j), waiting for it if needed.
+func (c *ceremony) genuineMsg(run *hx.Run, j int, kind string, src int) (proto.Message, bool) {
 	var genuine proto.Message
 	if c.cbOnly {
 		genuine = c.synthetic(kind, src, j)
@@ -508,12 +544,24 @@ func (c *ceremony) deliver(run *hx.Run, j int, kind string, from int, variant st
 			if kind != "c2" || c.complete(src, "c1", "p") {
 				run.Violate("frostp2p:ceremony_stalled", fmt.Sprintf("node %d: %s message of node %d never became available", j, kind, src))
 			}
-			return "unavailable"
+			return nil, false
 		}
 		if !c.genuineWellFormed(kind, genuine, src, j) {
 			run.Violate("frostp2p:genuine_message_malformed", fmt.Sprintf("%s message of node %d for node %d: keys %v", kind, src, j, keysOf(genuine)))
 		}
 	}
+	return genuine, true
+}
+
+func (c *ceremony) pid(from int) peer.ID {
+	if from >= 1 && from <= c.n {
+		return c.peers[from-1]
+	}
+	return c.outsider[(from-c.n-1)%len(c.outsider)]
+}
+
+func (c *ceremony) deliverMsg(run *hx.Run, j int, kind string, from int, variant string, src int, member bool, genuine proto.Message) string {
+	nd := c.nd[j]
 	msg := c.alter(kind, variant, genuine, src, j)
 	var pID peer.ID
 	if member {
@@ -566,7 +614,7 @@ func (c *ceremony) deliver(run *hx.Run, j int, kind string, from int, variant st
 	}
 	queued := got[kind] > 0
 	fk := fmt.Sprintf("%s|%d", kind, from)
-	invalid := !member || (variant != "g" && variant != "fv")
+	invalid := !member || (variant != "g" && variant != "fv" && !proto.Equal(msg, genuine))
 	seenBefore := nd.seenFrom[fk]
 	nd.seenFrom[fk] = true
 	if member && variant == "g" {
@@ -611,6 +659,133 @@ func (c *ceremony) deliver(run *hx.Run, j int, kind string, from int, variant st
 		run.Count("d:dup")
 		return "dup"
 	}
+}
+
+// race performs op `race j kind from`: two overlapping callback invocations with the identical
+// genuine cast of member `from`. The hand-over channel is kept full so that the first invocation
+// cannot leave the callback before the second one has started.
+func (c *ceremony) race(run *hx.Run, j int, kind string, from int) string {
+	nd := c.nd[j]
+	if nd == nil || from < 1 || from > c.n || (kind != "c1" && kind != "c2") {
+		panic("bad race op")
+	}
+	genuine, ok := c.genuineMsg(run, j, kind, from)
+	if !ok {
+		return "unavailable"
+	}
+	msgID := r1CastID
+	if kind == "c2" {
+		msgID = r2CastID
+	}
+	// fill the callback-side channel of that kind with placeholders
+	fill := 0
+	for {
+		full := false
+		if kind == "c1" {
+			select {
+			case nd.a1c <- nil:
+				fill++
+			default:
+				full = true
+			}
+		} else {
+			select {
+			case nd.a2c <- nil:
+				fill++
+			default:
+				full = true
+			}
+		}
+		if full {
+			break
+		}
+	}
+	errs := make([]error, 2)
+	var wg sync.WaitGroup
+	for i := 0; i < 2; i++ {
+		wg.Add(1)
+		go func() {
+			defer wg.Done()
+			ctx, cancel := context.WithTimeout(context.Background(), 20*time.Second)
+			defer cancel()
+			errs[i] = nd.bcastCb(ctx, c.pid(from), msgID, proto.Clone(genuine))
+		}()
+		time.Sleep(8 * time.Millisecond) // let it reach the hand-over (or the lock)
+	}
+	// release: drain until both invocations have returned
+	finished := make(chan struct{})
+	go func() { wg.Wait(); close(finished) }()
+	queued := 0
+	drain := func() bool {
+		if kind == "c1" {
+			select {
+			case m := <-nd.a1c:
+				if m != nil {
+					queued++
+					nd.b1c <- m
+				}
+				return true
+			default:
+			}
+		} else {
+			select {
+			case m := <-nd.a2c:
+				if m != nil {
+					queued++
+					nd.b2c <- m
+				}
+				return true
+			default:
+			}
+		}
+		return false
+	}
+	deadline := time.After(25 * time.Second)
+	done := false
+	for !done {
+		if drain() {
+			continue
+		}
+		select {
+		case <-finished:
+			done = true
+		case <-deadline:
+			run.Violate("frostp2p:callback_blocked", fmt.Sprintf("node %d: overlapping %s deliveries from %d did not return", j, kind, from))
+			done = true
+		case <-time.After(time.Millisecond):
+		}
+	}
+	for drain() {
+	}
+	desc := fmt.Sprintf("node %d, two overlapping deliveries of the %s cast of %d", j, kind, from)
+	fk := fmt.Sprintf("%s|%d", kind, from)
+	seenBefore := nd.seenFrom[fk]
+	nd.seenFrom[fk] = true
+	nd.genuine[fk] = true
+	run.Count("race:" + kind)
+	for _, e := range errs {
+		if e != nil {
+			run.Violate("frostp2p:genuine_message_refused", fmt.Sprintf("%s: %v", desc, e))
+			return "err " + errClass(e)
+		}
+	}
+	var res []string
+	for i := 0; i < queued; i++ {
+		if nd.queuedFrom[fk] > 0 {
+			run.Violate("frostp2p:duplicate_queued", fmt.Sprintf("%s: a message of this peer is already queued; a duplicate takes the place of another peer's message", desc))
+		}
+		nd.queued[kind]++
+		nd.queuedFrom[fk]++
+		res = append(res, fmt.Sprintf("q %d", nd.queued[kind]))
+	}
+	if queued == 0 && !seenBefore {
+		run.Violate("frostp2p:genuine_message_dropped", desc)
+	}
+	for len(res) < 2 {
+		res = append(res, "dup")
+	}
+	run.Case(fmt.Sprintf("race:%s:%d:%d", kind, c.n, queued))
+	return strings.Join(res, " | ")
 }
 
 func srcSet[T any](m map[key]T) string {
@@ -933,6 +1108,10 @@ func main() {
 			j, _ := strconv.Atoi(f[1])
 			from, _ := strconv.Atoi(f[3])
 			run.Op(op, cer.deliver(run, j, f[2], from, f[4]))
+		case "race":
+			j, _ := strconv.Atoi(f[1])
+			from, _ := strconv.Atoi(f[3])
+			run.Op(op, cer.race(run, j, f[2], from))
 		case "fin":
 			run.Count("fin")
 			run.Op(op, cer.finish(run))
@@ -1053,6 +1232,9 @@ func main() {
 		return
 	}
 
+	if a.Tier == "search" && a.N > 8000 {
+		a.N = 8000 // the search for a failing input after a broken obligation must end within minutes
+	}
 	rng := hx.NewRng(a.Seed)
 	pick := func(xs []int) int { return xs[rng.Intn(len(xs))] }
 	insertAfter := func(s []item, pos int, it item) []item { // at a random position > pos
@@ -1070,11 +1252,19 @@ func main() {
 		}
 		return -1
 	}
+	curNV := 1
 	badVariants := func(kind string) []string {
+		vs := []string{"ws", "wt", "wv"}
 		if kind == "c1" {
-			return []string{"ws", "wt", "wv", "wc"}
+			vs = append(vs, "wc")
 		}
-		return []string{"ws", "wt", "wv"}
+		// exactly one entry at a non-first position altered (needs >= 2 validators); weighted up
+		for rep := 0; rep < 2; rep++ {
+			for k := 1; k < curNV; k++ {
+				vs = append(vs, fmt.Sprintf("ws%d", k), fmt.Sprintf("wt%d", k), fmt.Sprintf("wv%d", k))
+			}
+		}
+		return vs
 	}
 	// script of one round for node j: genuine messages shuffled, one slow peer last, duplicates of
 	// identical messages before it, junk interleaved.
@@ -1179,6 +1369,12 @@ func main() {
 			s = append(s, item{kind: kind, from: pick(others), variant: "g"})
 		}
 		_ = insertAfter
+		// overlapping deliveries: some genuine casts (first delivery or re-delivery) arrive twice at once
+		for i := range s {
+			if s[i].kind == castKind && s[i].variant == "g" && s[i].from != slow && s[i].from <= n && rng.Chance(1, 4) {
+				s[i].variant = "race"
+			}
+		}
 		return s
 	}
 
@@ -1202,6 +1398,7 @@ func main() {
 			n := 3 + rng.Intn(3)
 			t := 2 + rng.Intn(n-1)
 			nv := 1 + rng.Intn(3)
+			curNV = nv
 			self := 1 + rng.Intn(n)
 			exec(fmt.Sprintf("cb %d %d %d %d", n, t, nv, self))
 			kinds := []string{"c1", "p", "c2"}
@@ -1215,13 +1412,18 @@ func main() {
 				if rng.Chance(2, 5) {
 					v = pick2(rng, append(badVariants(kind), "fv"))
 				}
+				if kind != "p" && from >= 1 && from <= n && rng.Chance(1, 8) {
+					exec(fmt.Sprintf("race %d %s %d", self, kind, from))
+					continue
+				}
 				exec(fmt.Sprintf("d %d %s %d %s", self, kind, from, v))
 			}
 			continue
 		}
 		sh := shapes[rng.Intn(len(shapes))]
 		n, t := sh.n, sh.t
-		nv := 1 + rng.Intn(2)
+		nv := 1 + rng.Intn(3)
+		curNV = nv
 		exec(fmt.Sprintf("p2pcer %d %d %d %d", n, t, nv, rng.U64()%1000000))
 		if cer == nil {
 			continue
@@ -1275,7 +1477,11 @@ func main() {
 				it := s[idx]
 				scripts[j] = append(append([]item{}, s[:idx]...), s[idx+1:]...)
 				total--
-				exec(fmt.Sprintf("d %d %s %d %s", j, it.kind, it.from, it.variant))
+				if it.variant == "race" {
+					exec(fmt.Sprintf("race %d %s %d", j, it.kind, it.from))
+				} else {
+					exec(fmt.Sprintf("d %d %s %d %s", j, it.kind, it.from, it.variant))
+				}
 				progressed = true
 				break
 			}
